@@ -453,25 +453,59 @@ func nonZeroFact(facts []fact, v ssa.Value) bool {
 // sameValueLoose: identical values, values equal up to conversions, or two loads of the same field through the
 // same base pointer in a function that never stores to that field.
 func sameValueLoose(a, b ssa.Value) bool {
+	return sameValueLoose0(a, b, 0)
+}
+
+func sameValueLoose0(a, b ssa.Value, depth int) bool {
 	a, b = stripConv(a), stripConv(b)
 	if a == b || sameValue(a, b) {
 		return true
 	}
-	fa, ba := loadedField(a)
-	fb, bb := loadedField(b)
-	if fa != nil && fa == fb && ba == bb {
-		fn := a.(ssa.Instruction).Parent()
-		stored := false
-		allInstrs(fn, func(in ssa.Instruction) {
-			if st, ok := in.(*ssa.Store); ok {
-				if f, _ := fieldOfAddr(st.Addr); f == fa {
-					stored = true
+	if depth > 4 {
+		return false
+	}
+	// two loads of the same captured variable / local cell that this function never assigns
+	if ua, ok := a.(*ssa.UnOp); ok && ua.Op == token.MUL {
+		if ub, ok := b.(*ssa.UnOp); ok && ub.Op == token.MUL && ua.X == ub.X {
+			switch ua.X.(type) {
+			case *ssa.FreeVar, *ssa.Alloc:
+				assigned := false
+				allInstrs(ua.Parent(), func(in ssa.Instruction) {
+					if st, ok := in.(*ssa.Store); ok && st.Addr == ua.X {
+						assigned = true
+					}
+				})
+				if _, isFree := ua.X.(*ssa.FreeVar); isFree && !assigned {
+					return true
 				}
 			}
-		})
-		return !stored
+		}
 	}
-	return false
+	fa, ba := loadedField(a)
+	fb, bb := loadedField(b)
+	if fa == nil || fa != fb {
+		return false
+	}
+	if ba != bb && !sameValueLoose0(ba, bb, depth+1) {
+		return false
+	}
+	ia, ok1 := a.(ssa.Instruction)
+	ib, ok2 := b.(ssa.Instruction)
+	if !ok1 || !ok2 || ia.Parent() != ib.Parent() {
+		return false
+	}
+	// no store to that field on a path between the two loads
+	between := false
+	allInstrs(ia.Parent(), func(in ssa.Instruction) {
+		if st, ok := in.(*ssa.Store); ok {
+			if f, _ := fieldOfAddr(st.Addr); f == fa {
+				if (instrReaches(ia, st) && instrReaches(st, ib)) || (instrReaches(ib, st) && instrReaches(st, ia)) {
+					between = true
+				}
+			}
+		}
+	})
+	return !between
 }
 
 // fieldWhy: every store to f in the library stores a non-zero value, and the implicit zero value is never read:
